@@ -110,6 +110,86 @@ func runC12(c *Ctx) {
 			L.Check(len(desc) >= 3, "R-C12-SLOW", "compIdx#writers", "writers of the bump pointer: "+strings.Join(desc, ", "), "fewer than three writers found", 0)
 		}
 	})
+	c.Group("R-C12-SLOW", "addBufferAt#fits", func() {
+		// the chunk acquired for a request is at least as large as the request: addBufferAt doubles the
+		// page size until it reaches minSz and may then cap it - the cap must not be below the largest
+		// request Allocate accepts (its `sz > G` panic guard), otherwise such a request never fits, the
+		// retry loop acquires chunk after chunk and finally panics on the chunk table limit
+		al := P.Fn("z", "Allocator", "Allocate")
+		ab := P.Fn("z", "Allocator", "addBufferAt")
+		L.Analysed(fname(ab))
+		atb, btb := newTB(al), newTB(ab)
+		var G int64 = -1
+		for _, b := range al.Blocks {
+			iff := lastIf(b)
+			if iff == nil {
+				continue
+			}
+			env := Env{}
+			if condPolarity(atb.T(iff.Cond), "lt(?g,p[1])", env) > 0 && env["g"].Op == "c" {
+				if hit, _ := reach(Pos{b.Succs[0], 0}, isPanic, isReturn, nil); hit != nil {
+					fmt.Sscan(env["g"].Sym, &G)
+				}
+			}
+		}
+		if G < 0 {
+			L.Undecided("R-C12-SLOW", "addBufferAt#fits", "Allocate's upper bound on the request size (`sz > const` ⇒ panic) was not found", al.Pos())
+			return
+		}
+		var problems []string
+		cal := callsTo(ab, "z.Calloc")
+		if len(cal) != 1 {
+			L.Undecided("R-C12-SLOW", "addBufferAt#fits", fmt.Sprintf("expected one Calloc in addBufferAt, found %d", len(cal)), ab.Pos())
+			return
+		}
+		size := cal[0].Common().Args[0]
+		var consts []int64
+		var walk func(v ssa.Value, seen map[ssa.Value]bool)
+		grows := false
+		walk = func(v ssa.Value, seen map[ssa.Value]bool) {
+			if seen[v] {
+				return
+			}
+			seen[v] = true
+			switch x := v.(type) {
+			case *ssa.Const:
+				var k int64
+				if _, err := fmt.Sscan(constSym(x), &k); err == nil {
+					consts = append(consts, k)
+				}
+			case *ssa.Phi:
+				for _, e := range x.Edges {
+					walk(e, seen)
+				}
+			case *ssa.Call:
+				if b, ok := x.Call.Value.(*ssa.Builtin); ok && (b.Name() == "min" || b.Name() == "max") {
+					for _, a := range x.Call.Args {
+						walk(a, seen)
+					}
+				}
+			case *ssa.BinOp:
+				// pageSize *= 2 / 2*len(prev): the growing part
+				grows = true
+			}
+		}
+		walk(size, map[ssa.Value]bool{})
+		for _, k := range consts {
+			if k < G {
+				problems = append(problems, fmt.Sprintf("a new chunk can be capped at %d bytes although Allocate accepts requests up to %d: a larger request never fits, every retry acquires another chunk", k, G))
+			}
+		}
+		// the doubling loop reaches minSz
+		reaches := false
+		for _, b := range ab.Blocks {
+			if iff := lastIf(b); iff != nil && condPolarity(btb.T(iff.Cond), "lt(_,p[2])", nil) != 0 {
+				reaches = true
+			}
+		}
+		if !reaches || !grows {
+			problems = append(problems, "the page size is not grown until it reaches the requested minimum (`for pageSize < minSz`)")
+		}
+		L.Check(len(problems) == 0, "R-C12-SLOW", "addBufferAt#fits", fmt.Sprintf("chunk size doubles until >= minSz; its cap (%v) is not below Allocate's request limit %d", consts, G), strings.Join(problems, "; "), cal[0].Pos())
+	})
 	c.Group("R-C12-SLOW", "Allocator.Allocate", func() {
 		fn := P.Fn("z", "Allocator", "Allocate")
 		L.Analysed(fname(fn))
